@@ -165,6 +165,9 @@ func registerWasm(m *Machine) {
 			for _, t := range ft.Results {
 				sig += string(tyc[t])
 			}
+			if int(e.Idx) < in.mod.nImportFuncs {
+				sig += ":imported"
+			}
 			sigs = append(sigs, sig)
 		}
 		sort.Strings(sigs)
